@@ -380,6 +380,7 @@ def run(ctx, rep):
     from . import c05
 
     c05.rule_repr(ctx, rep)
+    c05.rule_retype(ctx, rep)  # the thin prefix type and the fat type agree on where the count, the header and the recorded length live, for every payload shape (the `[T; 0]` tail is what gives the prefix the elements' alignment)
     from . import c06
 
     # "the stored length equals the number of elements the block really holds": the thin constructors record `items.len()` and
@@ -464,6 +465,7 @@ def main(argv):
             " Added later as premises: C06's R-LENFLOW / R-ITERLOOP (the fat constructor writes exactly as many slots as the thin constructor records, or panics) and C05's R-LAYOUT (the block is sized for that many, on every target width analysed); a signature-level clause of R-PROT-MUT."
             ' R-THICK: no owning handle is ever typed at the thin prefix type.'
             ' Round thirteen: the length check may be a comparison of tuples containing the (recorded length, slice length) pair.'
+            ' Round seventeen: R-RETYPE as a premise (the thin prefix type and the fat type agree on where count, header and recorded length live).'
         ),
         rule_text="instances = typestate entry points and their call sites, mutable-access sites into the protected payload, users of the re-fattening helper, conversions",
         trusted_base=["rustc MIR, type information and privacy", "C03 (no `&mut` to a shared payload), C04 (count balance)"],
